@@ -7,16 +7,19 @@
 (*   weekend   \in {Sat-Sun, Fri-Sat, Sun, none},  adj \in {f, p, m},                          *)
 (*   range     = the window +- Margin days (Margin 21: every n \in -NMax..NMax stays inside;    *)
 (*               Margin 2: the edges of the claimed domain are exercised),                     *)
-(*   t         = every day of the window +- 3 days.                                            *)
-(* Invariants (evaluated on the final state of each behaviour, by the parallel workers): the laws of the statement hold for the law level (the oracle is consistent), and *)
-(* the mechanism of the code (guarded loops, table path, loop path) equals the law level on the *)
-(* claimed domain.  The generator configurations print every in-domain query with its answer.   *)
+(*   t         = every day of the window +- TPad days.                                         *)
+(* Invariants (evaluated on the final state of each behaviour, so that the parallel workers    *)
+(* share them): the laws of the statement hold for the law level (the oracle is consistent),   *)
+(* and the mechanism of the code (guarded loops, table path, loop path) equals the law level   *)
+(* on the claimed domain.  The generator configurations print, for a seeded 1-in-GenMod        *)
+(* sample of the configurations, every in-domain query about (c, t) with its answer.           *)
 EXTENDS Calendar, TLC, Json, FiniteSetsExt, IOUtils
 CONSTANTS HW,          \* width of the holiday window: 7 or 10
           Margins,     \* set of margins of the calendar's range around the window
           Anchors,     \* subset of {1, 2}
           NMax,        \* n ranges over -NMax..NMax
-          GenMod       \* generator: print only configurations whose number is 0 modulo GenMod
+          GenMod,      \* generator: print only configurations whose number is 0 modulo GenMod
+          TPad         \* t ranges over the holiday window and TPad days on either side
 
 VARIABLES c, t, done
 vars == <<c, t, done>>
@@ -33,7 +36,7 @@ Ns == (0 - NMax)..NMax
 Advs == {"", "f", "p", "m"}
 
 Init == /\ c \in Configs
-        /\ t \in (c.w0 - 3)..(c.w0 + HW + 2)
+        /\ t \in (c.w0 - TPad)..(c.w0 + HW - 1 + TPad)
         /\ InRange(c, t)
         /\ done = FALSE
 Eval == done = FALSE /\ done' = TRUE /\ UNCHANGED <<c, t>>
